@@ -22,6 +22,8 @@ RECEIVERS = ["a", "'lit'", "f()", "o.p", "o.prototype", "o[k]", "(a)", "[a, b]",
              # member paths that merely pass through (or start at) something called prototype
              "Foo.prototype.label", "this.prototype.x.y", "o.constructor.prototype.id", "prototype.name", "o.prototype.prototype", "o.p.prototype",
              "o[k].prototype.v", "f().prototype.w", "o.call", "o.apply.p", "o.p.call", "a.b.c.d.e", "this.a", "o['prototype'].z", "(o.prototype).y",
+             # templates without substitution (never a literal receiver), with escapes and line breaks
+             "`plain`", "`a\\tb`", "`l1\\nl2\\u00e9`", "`two\nlines`", "`cr\r\nlf`",
              # optional calls whose callee is a member access: the receiver is the call's this
              "o?.m?.(a)", "o.p?.m?.(a, b)", "(o.m)?.(a)", "o?.[k]?.(a)", "o?.p.m?.(a)", "o.m?.(a)", "f?.(a)"]
 METHODS = ["trim", "substring", "concat", "replace", "slice", "trimStart", "toUpperCase", "padStart", "call", "apply"]
@@ -124,6 +126,8 @@ def operations(rng, reserved=None):
         lambda: "%s + %s" % (par(o()), par(o())),
         lambda: "%s + %s + %s" % (par(o()), par(o()), par(o())),
         lambda: "%s + (%s + %s)" % (par(o()), par(o()), par(o())),
+        # the same variable on both sides of an operation whose other operand changes it (update, unary over an assignment)
+        lambda: rng.choice(["i + i++", "i + ++i", "i++ + i", "x + -(x = y)", "x + typeof (x = y)", "i + -i--", "x + !(x = y)", "i + (i += 1)", "`${i}${i++}`", "x.concat(x = y)", "i + i++ + i", "x + void (x = y)"]),
         lambda: "%s += %s" % (rng.choice(["x", "o.p", "o[k]", "o[i++]", "f().p", "o.p.q", "this.v", "o[a + b]", "o[-k]", "o[+k]", "(o[-k])", "o[`${k}`]", "o[k ? 'a' : 'b']",
                                            "o[k.p]", "o[typeof k]", "o[!k]", "o[~k]", "o[k - 1]", "o[(k, 1)]", "o[k?.p]", "o.p[-k].q", "o[k][-i]", "o[-1]", "o['lit']", "o[f()].p[g()]",
                                            "f()[g(a)]", "o.p[f()]", "g(a)[k + 1]", "f()[o.p]", "o.q.r[g(b)]", "f().p[g(a)]", "(a, o)[f()]", "o[f()][g(a)]",
